@@ -30,10 +30,10 @@ class ImporteeModuleCalculator:
         extended_modules = set(all_modules)
 
         for imp in imports:
-            importee = imp.importee()
-
-            if str(self._root_path) not in importee:
-                extended_modules.update(self._calculate_parent_modules(imp))
+            # a module name never contains the root path of the scanned project - unless that path has been given
+            # relative to the working directory (e.g. 'proj') and an imported module merely has a similar name (e.g.
+            # 'myproj.sub' or 'projection'). Module names are therefore not compared to the path.
+            extended_modules.update(self._calculate_parent_modules(imp))
 
         return list(extended_modules)
 
